@@ -135,4 +135,164 @@ theorem rows_consecutive (e : Env) (lines : List Text) (s : Scroll) :
     obtain ⟨nw, hnw⟩ := this
     rw [hnw]; simp
 
+/-! ### every drawn cell of line `l` lies on a screen row recorded for line `l` -/
+
+/-- each `rowcol_to_yx` entry has a `visible_line_to_row_col` entry for its screen row and line -/
+def RcVl (e : Env) (st : CS) : Prop :=
+  ∀ p ∈ st.rc, ∃ c, (p.2.1 - e.ypos, p.1.1, c) ∈ st.vl
+
+theorem putChar_rc (e : Env) (i : Bool) (l s : Nat) (st : CS) (c : Char) :
+    (putChar e i l s st c).rc = st.rc ∨
+      (putChar e i l s st c).rc = ((l, st.col + s), (st.y + e.ypos, st.x + e.xpos)) :: st.rc := by
+  unfold putChar
+  split
+  · cases i <;> simp
+  · left; rfl
+
+theorem putChar_rcvl (e : Env) {same base} (i : Bool) (l s : Nat) (st : CS) (c : Char)
+    (h1 : InLine same base l st) (h2 : RcVl e st) : RcVl e (putChar e i l s st c) := by
+  intro p hp
+  rw [(putChar_vl e i l s st c).1]
+  rcases putChar_rc e i l s st c with h | h
+  · rw [h] at hp; exact h2 p hp
+  · rw [h] at hp
+    rcases List.mem_cons.mp hp with rfl | hp
+    · obtain ⟨_, ⟨c0, tl, hv⟩, _⟩ := h1
+      refine ⟨c0, ?_⟩
+      rw [hv]; simp
+    · exact h2 p hp
+
+/-- the combined invariant while line `l` is being copied -/
+def Inv2 (e : Env) (same : Bool) (base : List (Int × Nat × Int)) (l : Nat) (st : CS) : Prop :=
+  InLine same base l st ∧ RcVl e st
+
+theorem wrapSt_rcvl (e : Env) (l : Nat) (st : CS) (h : RcVl e st) : RcVl e (wrapSt l st) := by
+  intro p hp
+  obtain ⟨c, hc⟩ := h p hp
+  exact ⟨c, by simp [wrapSt, hc]⟩
+
+theorem step_inv2 (e : Env) {same : Bool} (hs : e.wrap = true → same = true) {base} (i : Bool) (l s : Nat)
+    (hook : CS → CS) (hh : ∀ st, Inv2 e same base l st → Inv2 e same base l (hook st))
+    (st : CS) (c : Char) (h : Inv2 e same base l st) : Inv2 e same base l (step e i l s hook st c) := by
+  unfold step
+  split
+  · exact h
+  · split
+    · rename_i hw
+      have hsame := hs hw.1
+      subst hsame
+      have h2 := hh _ ⟨wrapSt_inLine h.1, wrapSt_rcvl e l st h.2⟩
+      simp only []
+      split
+      · exact h2
+      · obtain ⟨p1, p2⟩ := putChar_vl e i l s (hook (wrapSt l st)) c
+        refine ⟨?_, putChar_rcvl e i l s _ c h2.1 h2.2⟩
+        unfold InLine; rw [p1, p2]; exact h2.1
+    · obtain ⟨p1, p2⟩ := putChar_vl e i l s st c
+      refine ⟨?_, putChar_rcvl e i l s _ c h.1 h.2⟩
+      unfold InLine; rw [p1, p2]; exact h.1
+
+theorem fold_inv2 (e : Env) {same : Bool} (hs : e.wrap = true → same = true) {base} (i : Bool) (l s : Nat)
+    (hook : CS → CS) (hh : ∀ st, Inv2 e same base l st → Inv2 e same base l (hook st)) (cs : Text) :
+    ∀ st, Inv2 e same base l st → Inv2 e same base l (cs.foldl (step e i l s hook) st) := by
+  induction cs with
+  | nil => intro st h; exact h
+  | cons c cs ih => intro st h; exact ih _ (step_inv2 e hs i l s hook hh st c h)
+
+theorem prefixHook_inv2 (e : Env) {same : Bool} (hs : e.wrap = true → same = true) {base} (l : Nat) :
+    ∀ st, Inv2 e same base l st → Inv2 e same base l (prefixHook e l st) := by
+  intro st h
+  unfold prefixHook
+  split
+  · exact h
+  · rename_i f _
+    unfold copyPlain
+    have := fold_inv2 e hs false l 0 id (fun _ h => h) (f l st.wc) { st with col := 0, wc := 0, ret := false } h
+    exact this
+
+theorem copyLine_inv2 (e : Env) {same : Bool} (hs : e.wrap = true → same = true) {base} (h0 : Int) (l : Nat)
+    (line : Text) (st : CS) (h : Inv2 e same base l st) : Inv2 e same base l (copyLine e h0 l line st) := by
+  unfold copyLine
+  have h1 : Inv2 e same base l (shiftX (prefixHook e l (lineInit st)) (hskip e.W h0 line).1) :=
+    prefixHook_inv2 e hs l (lineInit st) h
+  exact fold_inv2 e hs true l _ _ (prefixHook_inv2 e hs l) _ _ h1
+
+theorem copyLines_rcvl (e : Env) {same : Bool} (hs : e.wrap = true → same = true) (h0 : Int)
+    (lines : List Text) :
+    ∀ (l : Nat) (st : CS) (base), Between same base l st → RcVl e st →
+      RcVl e (copyLines e h0 lines l st) := by
+  induction lines with
+  | nil => intro l st base _ h; exact h
+  | cons ln rest ih =>
+    intro l st base ⟨hc, ⟨nw, hb⟩, hl⟩ hr
+    rw [copyLines]
+    split
+    · have hstart : InLine same base l (lineStart h0 l st) := by
+        refine ⟨?_, ⟨h0, st.vl, rfl⟩, ⟨(st.y, l, h0) :: nw, by simp [lineStart, hb]⟩⟩
+        show Chain same ((st.y, l, h0) :: st.vl)
+        rcases hl with hnil | ⟨r, c, tl, hv, hr⟩
+        · rw [hnil]; exact Chain.single _
+        · rw [hv] at hc ⊢
+          have := Chain.cons (st.y - 1) r l c h0 tl (Or.inl hr.symm) hc
+          have e1 : st.y - 1 + 1 = st.y := by omega
+          rw [e1] at this; exact this
+      have hstartR : RcVl e (lineStart h0 l st) := by
+        intro p hp
+        obtain ⟨c, hc⟩ := hr p hp
+        exact ⟨c, by simp [lineStart, hc]⟩
+      have hline := copyLine_inv2 e hs h0 l ln _ ⟨hstart, hstartR⟩
+      obtain ⟨⟨k1, ⟨c, tl, k2⟩, k3⟩, k4⟩ := hline
+      refine ih (l + 1) (lineEnd _) base ⟨k1, k3, Or.inr ⟨l, c, tl, ?_, rfl⟩⟩ k4
+      show (copyLine e h0 l ln (lineStart h0 l st)).vl = ((copyLine e h0 l ln (lineStart h0 l st)).y + 1 - 1, l, c) :: tl
+      rw [k2]; congr 2; omega
+    · exact hr
+
+/-- in a chain every older entry is on a strictly higher screen row than the newest -/
+theorem chain_lt {same : Bool} {y : Int} {r : Nat} {c : Int} {tl : List (Int × Nat × Int)}
+    (h : Chain same ((y, r, c) :: tl)) : ∀ q ∈ tl, q.1 < y := by
+  induction tl generalizing y r c with
+  | nil => intro q hq; cases hq
+  | cons hd tl ih =>
+    intro q hq
+    cases h with
+    | cons y0 r0 r' c0 c' rest hor hch =>
+      rcases List.mem_cons.mp hq with rfl | hq
+      · show y0 < y0 + 1; omega
+      · have := ih hch q hq; omega
+
+/-- a screen row has one entry only -/
+theorem chain_unique {same : Bool} (vl : List (Int × Nat × Int)) (h : Chain same vl) :
+    ∀ a ∈ vl, ∀ b ∈ vl, a.1 = b.1 → a = b := by
+  induction vl with
+  | nil => intro a ha; cases ha
+  | cons hd tl ih =>
+    have htl : Chain same tl := by
+      cases h with
+      | single => exact Chain.nil
+      | cons y r r' c c' rest _ hch => exact hch
+    obtain ⟨y, r, c⟩ := hd
+    have hlt := chain_lt h
+    intro a ha b hb hab
+    rcases List.mem_cons.mp ha with rfl | ha <;> rcases List.mem_cons.mp hb with rfl | hb
+    · rfl
+    · have := hlt b hb; simp at hab; omega
+    · have := hlt a ha; simp at hab; omega
+    · exact ih htl a ha b hb hab
+
+/-- **cursor_row_is_cursor_line** (for every cell, any widths): if `rowcol_to_yx` maps `(row, col)`
+    to screen row `Y`, then `visible_line_to_row_col` has an entry for that screen row, and every entry
+    for that screen row names document line `row`. -/
+theorem drawn_cell_row_recorded (e : Env) (lines : List Text) (s : Scroll) :
+    let r := copyBody e lines s
+    ∀ p ∈ r.rc, (∃ c, (p.2.1 - e.ypos, p.1.1, c) ∈ r.vl) ∧
+      ∀ q ∈ r.vl, q.1 = p.2.1 - e.ypos → q.2.1 = p.1.1 := by
+  intro r p hp
+  have hch : Chain e.wrap r.vl := (rows_consecutive e lines s).1
+  have hrv : RcVl e r := copyLines_rcvl e (same := e.wrap) id s.hs _ s.vs.toNat (initCS s.vs2) []
+    ⟨Chain.nil, ⟨[], rfl⟩, Or.inl rfl⟩ (by intro p hp; cases hp)
+  obtain ⟨c, hc⟩ := hrv p hp
+  refine ⟨⟨c, hc⟩, fun q hq hy => ?_⟩
+  have := chain_unique r.vl hch q hq _ hc hy
+  rw [this]
+
 end Ptk.C11
